@@ -28,33 +28,38 @@ pub const BLOCKED_SIG: &str = "roundtrip-blocked-by-resolution-quirk";
 
 both_families! {
 	pub fn check(case: &Case, cx: &mut Ctx) -> Result<bool, Failure> {
-		let a = match Ri::new(case.a.as_str()) { Ok(v) => v, Err(_) => return Ok(false) };
-		let b = match Ri::new(case.b.as_str()) { Ok(v) => v, Err(_) => return Ok(false) };
-		let r = guard(|| a.relative_to(b)).map_err(|p| Failure::new(format!("relative_to-panics:{}", p.loc), format!("{:?}.relative_to({:?}) panicked at {}: {}", case.a, case.b, p.loc, p.msg)))?;
+		check_texts(case.a.as_str(), case.b.as_str(), cx)
+	}
+
+	/// `ta` and `tb` may be views of one buffer (they are parsed in place)
+	pub fn check_texts(ta: &str, tb: &str, cx: &mut Ctx) -> Result<bool, Failure> {
+		let a = match Ri::new(ta) { Ok(v) => v, Err(_) => return Ok(false) };
+		let b = match Ri::new(tb) { Ok(v) => v, Err(_) => return Ok(false) };
+		let r = guard(|| a.relative_to(b)).map_err(|p| Failure::new(format!("relative_to-panics:{}", p.loc), format!("{:?}.relative_to({:?}) panicked at {}: {}", ta, tb, p.loc, p.msg)))?;
 		let rt = String::from_utf8_lossy(r.as_bytes()).to_string();
-		ensure!(RiRef::new(rt.as_str()).is_ok(), "result-invalid", "{:?}.relative_to({:?}) = {:?}, not a valid reference", case.a, case.b, rt);
+		ensure!(RiRef::new(rt.as_str()).is_ok(), "result-invalid", "{:?}.relative_to({:?}) = {:?}, not a valid reference", ta, tb, rt);
 		let ty = if FAM == Fam::Uri { Ty::UriRef } else { Ty::IriRef };
-		ensure!(abnf::accepts_str(ty, &rt), "result-invalid-per-rfc", "{:?}.relative_to({:?}) = {:?}, not derivable from the reference grammar", case.a, case.b, rt);
+		ensure!(abnf::accepts_str(ty, &rt), "result-invalid-per-rfc", "{:?}.relative_to({:?}) = {:?}, not derivable from the reference grammar", ta, tb, rt);
 		// via the reference types too
 		let r2 = guard(|| a.as_ref_view().relative_to(b.as_ref_view())).map_err(|p| Failure::new(format!("relative_to-panics:{}", p.loc), format!("reference-typed relative_to panicked: {}", p.msg)))?;
-		ensure!(r2.as_bytes() == r.as_bytes(), "entry-points-differ", "{:?} relative to {:?}: Ri::relative_to = {:?}, RiRef::relative_to = {:?}", case.a, case.b, rt, String::from_utf8_lossy(r2.as_bytes()));
+		ensure!(r2.as_bytes() == r.as_bytes(), "entry-points-differ", "{:?} relative to {:?}: Ri::relative_to = {:?}, RiRef::relative_to = {:?}", ta, tb, rt, String::from_utf8_lossy(r2.as_bytes()));
 		// round trip through the library
-		let back = guard(|| r.resolved(b)).map_err(|p| Failure::new(format!("resolved-panics:{}", p.loc), format!("resolving {:?} against {:?} panicked: {}", rt, case.b, p.msg)))?;
+		let back = guard(|| r.resolved(b)).map_err(|p| Failure::new(format!("resolved-panics:{}", p.loc), format!("resolving {:?} against {:?} panicked: {}", rt, tb, p.msg)))?;
 		let bt = String::from_utf8_lossy(back.as_bytes()).to_string();
-		let lib_eq = guard(|| back == *a).map_err(|p| Failure::new(format!("eq-panics:{}", p.loc), format!("comparing {:?} with {:?} panicked: {}", bt, case.a, p.msg)))?;
+		let lib_eq = guard(|| back == *a).map_err(|p| Failure::new(format!("eq-panics:{}", p.loc), format!("comparing {:?} with {:?} panicked: {}", bt, ta, p.msg)))?;
 		// round trip through the reference models
-		let t = resolve_parts(&split(&case.b), &split(&rt));
+		let t = resolve_parts(&split(tb), &split(&rt));
 		let model_target = recompose(&t);
-		let model_eq = pct::equiv_parts(&t, &split(&case.a));
+		let model_eq = pct::equiv_parts(&t, &split(ta));
 		if !lib_eq || !model_eq {
-			let class = classify(&case.a, &case.b);
-			let pa = split(&case.a);
-			let pb = split(&case.b);
+			let class = classify(ta, tb);
+			let pa = split(ta);
+			let pb = split(tb);
 			// (1) targets no resolution can produce: resolving `a` itself (scheme branch) already
 			// yields something the documented equality distinguishes from `a` (final dot segment).
 			let self_target = resolve_parts(&pb, &pa);
 			if !pct::equiv_parts(&self_target, &pa) {
-				soft_fail!(cx, UNREACHABLE_SIG, "{:?} relative to {:?} = {:?} resolves to {:?}, not equal to a - but no reference can: even {:?} itself resolves to {:?} (RFC 3986 5.2.4 leaves a trailing '/' for the final dot segment, the documented equality does not)", case.a, case.b, rt, bt, case.a, recompose(&self_target));
+				soft_fail!(cx, UNREACHABLE_SIG, "{:?} relative to {:?} = {:?} resolves to {:?}, not equal to a - but no reference can: even {:?} itself resolves to {:?} (RFC 3986 5.2.4 leaves a trailing '/' for the final dot segment, the documented equality does not)", ta, tb, rt, bt, ta, recompose(&self_target));
 				return Ok(true);
 			}
 			// (2) the reference is right per RFC 3986 but the library's resolution of it hits the recorded C06 finding
@@ -63,7 +68,7 @@ both_families! {
 				if let Some((qabs, ql)) = c06::quirk_merge(&pb, &pr.path) {
 					let got = split(&bt);
 					if crate::oracle::norm::accept_textual(&got.path, qabs, &ql) && got.scheme == t.scheme && got.authority == t.authority && got.query == t.query && got.fragment == t.fragment {
-						soft_fail!(cx, BLOCKED_SIG, "{:?} relative to {:?} = {:?}, correct per RFC 3986 5.2 (target {:?}), but the library resolves it to {:?} (recorded C06 finding: empty segment ignored on an empty merged path)", case.a, case.b, rt, model_target, bt);
+						soft_fail!(cx, BLOCKED_SIG, "{:?} relative to {:?} = {:?}, correct per RFC 3986 5.2 (target {:?}), but the library resolves it to {:?} (recorded C06 finding: empty segment ignored on an empty merged path)", ta, tb, rt, model_target, bt);
 						return Ok(true);
 					}
 				}
@@ -71,11 +76,11 @@ both_families! {
 			if lib_eq != model_eq {
 				// the library's resolution/equality and the reference models disagree on this reference:
 				// that is a C06/C07 matter, reported as such
-				fail!(format!("roundtrip-oracles-disagree:{class}"), "{:?} relative to {:?} = {:?}; resolved by the library: {:?} (== a: {}), by RFC 3986 5.2: {:?} (equivalent to a: {})", case.a, case.b, rt, bt, lib_eq, model_target, model_eq);
+				fail!(format!("roundtrip-oracles-disagree:{class}"), "{:?} relative to {:?} = {:?}; resolved by the library: {:?} (== a: {}), by RFC 3986 5.2: {:?} (equivalent to a: {})", ta, tb, rt, bt, lib_eq, model_target, model_eq);
 			}
-			fail!(format!("roundtrip:{class}"), "{:?} relative to {:?} = {:?}, which resolves against b to {:?} (RFC: {:?}) - not equal to a", case.a, case.b, rt, bt, model_target);
+			fail!(format!("roundtrip:{class}"), "{:?} relative to {:?} = {:?}, which resolves against b to {:?} (RFC: {:?}) - not equal to a", ta, tb, rt, bt, model_target);
 		}
-		ensure!(a.as_str() == case.a && b.as_str() == case.b, "inputs-changed", "inputs changed");
+		ensure!(a.as_str() == ta && b.as_str() == tb, "inputs-changed", "inputs changed");
 		cx.obs(4);
 		Ok(true)
 	}
@@ -222,6 +227,18 @@ impl Prop for C15 {
 		if !judged {
 			cx.class("rejected-by-library");
 			return Ok(());
+		}
+		// the same with b (then a) being a VIEW of the other one's buffer - same start address - and with
+		// a relative to itself (one object)
+		{
+			let valid = |p: &str| match case.fam { Fam::Uri => iref::Uri::new(p).is_ok(), Fam::Iri => iref::Iri::new(p).is_ok() };
+			let tag = |f: Failure| Failure::new(format!("aliased:{}", f.sig), format!("(the two values are views of one buffer) {}", f.msg));
+			for k in gen::valid_prefix_cuts(&case.a, 5, valid) {
+				by_fam!(case.fam, check_texts(&case.a, &case.a[..k], cx)).map_err(tag)?;
+				by_fam!(case.fam, check_texts(&case.a[..k], &case.a, cx)).map_err(tag)?;
+				cx.class("aliased-prefix-view");
+			}
+			by_fam!(case.fam, check_texts(&case.a, &case.a, cx)).map_err(tag)?;
 		}
 		cx.class("judged");
 		let class = classify(&case.a, &case.b);
